@@ -1,6 +1,7 @@
+import LentilVerif.Gen.ZernikeR
 /-! Integer kernel of `lentil/zernike.py`: Noll index → (n, m) and the radial polynomial coefficients with their exact tables
-(`radialAtOne`, `gramNum`, …). No imports: the finite tables of `Lemmas/ZernikeTables.lean` depend on this file only, so they are
-re-checked only when it changes. -/
+(`radialAtOne`, `gramNum`, …). It imports only the generated `Gen/ZernikeR.lean` (the coefficient formula of `R`): the finite tables of
+`Lemmas/ZernikeTables.lean` depend on these two files only, so they are re-checked only when the formula changes. -/
 namespace Lentil
 
 /-! ## Noll index -/
@@ -52,14 +53,15 @@ def codeIndex (j : Nat) : Int × Nat :=
 
 /-! ## radial polynomials -/
 
-def fact : Nat → Nat
-  | 0 => 1
-  | n + 1 => (n + 1) * fact n
+/-- coefficient of ρ^(n-2k) in R_n^m: the exact value of the quotient `lentil.zernike.R` computes, numerator and denominator
+REGENERATED from the source (`Gen.radialNum`, `Gen.radialDen`) -/
+def radialCoeff (n m k : Nat) : Int := Gen.radialNum n m k / (Gen.radialDen n m k : Int)
 
-/-- coefficient of ρ^(n-2k) in R_n^m, as in `lentil.zernike.R` -/
-def radialCoeff (n m k : Nat) : Int :=
-  (if k % 2 = 0 then 1 else -1) *
-    ((fact (n - k) / (fact k * fact ((n + m) / 2 - k) * fact ((n - m) / 2 - k)) : Nat) : Int)
+/-- every coefficient of every valid (n, m) with n ≤ N is an exact integer: the denominator of the quotient the code forms divides its
+numerator (so the Int division of `radialCoeff` is the true value of the float quotient) -/
+def allCoeffExact (N : Nat) : Bool :=
+  (List.range (N + 1)).all fun n => (List.range (n + 1)).all fun m => (n - m) % 2 != 0 ||
+    (List.range ((n - m) / 2 + 1)).all fun k => Gen.radialNum n m k % (Gen.radialDen n m k : Int) == 0 && Gen.radialDen n m k != 0
 
 /-- R_n^m(1) -/
 def radialAtOne (n m : Nat) : Int := ((List.range ((n - m) / 2 + 1)).map (radialCoeff n m)).foldl (· + ·) 0
